@@ -572,22 +572,21 @@ def _fuse_generator_loop(prog, owner, st, local_defs, counter, local_only, top, 
                 out.extend(r_ if isinstance(r_, list) else [r_])
                 out.extend(copy.deepcopy(st.body))
                 continue
-            if any(isinstance(x, ast.Yield) for x in ast.walk(s_)) and not any(
-                    isinstance(getattr(s_, fld, None), list) for fld in ("body", "orelse", "finalbody")):
-                ok[0] = False   # the value of a yield is used
             for fld in ("body", "orelse", "finalbody"):
                 b = getattr(s_, fld, None)
                 if isinstance(b, list) and b and isinstance(b[0], ast.stmt):
                     setattr(s_, fld, rep(b))
             for h in getattr(s_, "handlers", []) or []:
                 h.body = rep(h.body)
-            if isinstance(s_, (ast.If, ast.While)) and any(isinstance(x, ast.Yield) for x in ast.walk(s_.test)):
-                ok[0] = False
             out.append(s_)
         return out
 
+    n_yields = sum(1 for s_ in body for x in ast.walk(s_) if isinstance(x, ast.Yield))
+    n_stmt_yields = sum(1 for s_ in body for x in ast.walk(s_) if isinstance(x, ast.Expr) and isinstance(x.value, ast.Yield))
+    if n_yields != n_stmt_yields:
+        return None   # the value of a yield is used
     new = rep(body)
-    if not ok[0] or any(isinstance(x, ast.Yield) for s_ in new for x in ast.walk(s_)):
+    if not ok[0]:
         return None
     sub_owner = as_receiver(callee, owner, st.iter) if isinstance(callee, FuncInfo) else owner
     return _prune_const_ifs(new), sub_owner
@@ -758,7 +757,21 @@ def _prune_const_ifs(stmts):
                     out.append(r)
             return out
 
+        @staticmethod
+        def _boolish(e):
+            return isinstance(e, ast.Compare) or (isinstance(e, ast.UnaryOp) and isinstance(e.op, ast.Not))
+
+        def visit_Compare(self, n):
+            # `(a in T) is True` -> `a in T`;  `(a in T) is False` -> `not (a in T)`   (the left side is a bool)
+            self.generic_visit(n)
+            if len(n.ops) == 1 and isinstance(n.ops[0], (ast.Is, ast.IsNot, ast.Eq, ast.NotEq)) and self._boolish(n.left) \
+                    and isinstance(n.comparators[0], ast.Constant) and isinstance(n.comparators[0].value, bool):
+                same = n.comparators[0].value == isinstance(n.ops[0], (ast.Is, ast.Eq))
+                return n.left if same else ast.copy_location(ast.UnaryOp(op=ast.Not(), operand=n.left), n)
+            return n
+
         def visit_If(self, n):
+            n.test = self.visit(n.test)
             n.body, n.orelse = self._blk(n.body), self._blk(n.orelse)
             if isinstance(n.test, ast.Constant):
                 return (n.body if n.test.value else n.orelse) or []
@@ -773,6 +786,8 @@ def _prune_const_ifs(stmts):
                     setattr(node, fld, self._blk(b) or ([ast.Pass()] if fld == "body" else []))
             for h in getattr(node, "handlers", []) or []:
                 h.body = self._blk(h.body) or [ast.Pass()]
+            if isinstance(node, ast.expr):
+                return ast.NodeTransformer.generic_visit(self, node)
             return node
     return P()._blk(list(stmts))
 
